@@ -151,6 +151,7 @@ Definition with_lastto r v := {| prog := prog r; fs := fs r; alive := alive r; j
 
 (* ------------------------------------------------------------------ lists *)
 (* Node::Erase of the node of fiber g, wherever it is linked. *)
+Definition is_nil {A} (l : list A) : bool := match l with [] => true | _ => false end.
 Definition rm (g : fid) (l : list fid) : list fid := filter (fun x => negb (Nat.eqb x g)) l.
 Definition mem (g : fid) (l : list fid) : bool := existsb (Nat.eqb g) l.
 
@@ -193,10 +194,11 @@ Fixpoint wget (q : qid) (l : list (qid * list fid)) : list fid :=
   | [] => []
   | (a, b) :: t => if qid_eqb a q then b else wget q t
   end.
+(* an empty FiberQueue has no entry (canonical form: a state in which nobody waits has waitq = []) *)
 Fixpoint wset (q : qid) (v : list fid) (l : list (qid * list fid)) : list (qid * list fid) :=
   match l with
-  | [] => [(q, v)]
-  | (a, b) :: t => if qid_eqb a q then (a, v) :: t else (a, b) :: wset q v t
+  | [] => if is_nil v then [] else [(q, v)]
+  | (a, b) :: t => if qid_eqb a q then (if is_nil v then t else (a, v) :: t) else (a, b) :: wset q v t
   end.
 
 (* _sleep_list[ns].PushBack(f): std::map keeps the keys ascending *)
@@ -228,6 +230,8 @@ Fixpoint wake (t : N) (m : list (N * list fid)) : list fid * list (N * list fid)
   | [] => ([], [])
   | (k, b) :: r => if (k <=? t)%N then let (w, r') := wake t r in (b ++ w, r') else ([], m)
   end.
+
+Definition first_key (m : list (N * list fid)) : option N := match m with [] => None | kb :: _ => Some (fst kb) end.
 
 Definition fiber0 (p : list action) : fiber :=
   {| prog := p; fs := FSuspended; alive := true; joiner := None; pend := PNone; lastcas := false; lastto := false |}.
@@ -276,18 +280,23 @@ Definition sched_and_remove (g : fid) (s : st) : st :=
   | None => s
   end.
 
+(* PollRandomElementFromList(l), l not empty: (the node taken if any, its index, the state after the draw, what the
+   recorder sees) *)
+Definition poll (l : list fid) (s : st) : option fid * nat * st * list obs :=
+  let '(v, s1, o) := draw (2 * pick cf) s in
+  let i := poll_index (length l) v in
+  (nth_error l i, i, s1, OPick (length l) :: o).
+
 (* FiberQueue::NotifyOne *)
 Definition notify_one (q : qid) (s : st) : st * list obs :=
-  match wq q s with
-  | [] => (s, [])
-  | l =>
-      let '(v, s1, o) := draw (2 * pick cf) s in
-      let i := poll_index (length l) v in
-      match nth_error l i with
-      | Some g => (sched_and_remove g (set_wq q (remove_nth i l) s1), OPick (length l) :: o)
-      | None => (set_crashed s1 true, OPick (length l) :: o ++ [OCrash 1])
-      end
-  end.
+  let l := wq q s in
+  if is_nil l then (s, [])
+  else
+    let '(og, i, s1, o) := poll l s in
+    match og with
+    | Some g => (sched_and_remove g (set_wq q (remove_nth i l) s1), o)
+    | None => (set_crashed s1 true, o ++ [OCrash 1])
+    end.
 
 (* FiberQueue::NotifyAll: the whole list is taken, then PopBack until empty: last waiter first *)
 Definition notify_all (q : qid) (s : st) : st :=
@@ -309,20 +318,16 @@ Definition inject (f : fid) (s : st) : st * list obs :=
   else (set_inj s (inj s + 1)%N, [OYieldReq]).
 
 (* The part of FiberQueue::Wait(time_point) after Sleep() returned:
-     SleepPreemptive: if (_time <= ns) { it = _sleep_list.find(ns); [assert it != end]; if (it->second.Empty()) erase }
+     SleepPreemptive: if (it = _sleep_list.find(ns); it != end && it->second.Empty()) _sleep_list.erase(it)
      Wait:            res = queue_node->Erase(); return res ? Timeout : Ready *)
 Definition timed_finish (f : fid) (q : qid) (ns : N) (s : st) : st * list obs :=
-  let fin (s' : st) :=
-    let l := wq q s' in
-    let tmo := mem f l in
-    updf f (fun r => with_lastto (with_pend r PNone) tmo) (if tmo then set_wq q (rm f l) s' else s') in
-  if (now s <=? ns)%N then
-    match sm_find ns (sleepm s) with
-    | None => crash 2 s                             (* dereferences _sleep_list.end() *)
-    | Some [] => (fin (set_sleepm s (sm_erase ns (sleepm s))), [])
-    | Some _ => (fin s, [])
-    end
-  else (fin s, []).
+  let s1 := match sm_find ns (sleepm s) with
+            | Some b => if is_nil b then set_sleepm s (sm_erase ns (sleepm s)) else s
+            | None => s
+            end in
+  let l := wq q s1 in
+  let tmo := mem f l in
+  (updf f (fun r => with_lastto (with_pend r PNone) tmo) (if tmo then set_wq q (rm f l) s1 else s1), []).
 
 (* One action of the running fiber f whose record is r (pend r = PNone), a = head of its program, rest = tail. *)
 Definition do_action (f : fid) (r : fiber) (a : action) (rest : list action) (s : st) : st * list obs :=
@@ -424,34 +429,40 @@ Definition fiber_step (f : fid) (s : st) : st * list obs :=
 
 (* One iteration of Scheduler::RunLoop up to next->Resume():
      if (_queue.Empty()) AdvanceTime();  WakeUpNeeded();  next = GetNext();  sCurrent = next;  TickTime();  Resume *)
+
+(* if (_queue.Empty()) AdvanceTime(): if (_sleep_list.begin()->first >= _time) _time = that key *)
+Definition advance (s : st) : st :=
+  if is_nil (runq s)
+  then match first_key (sleepm s) with
+       | Some k => if (now s <=? k)%N then set_now s k else s
+       | None => s
+       end
+  else s.
+
+(* WakeUpNeeded *)
+Definition wakeup (s : st) : st :=
+  let wm := wake (now s) (sleepm s) in
+  set_sleepm (set_runq s (runq s ++ fst wm)) (snd wm).
+
+(* GetNext; sCurrent = next; TickTime; resume hook; FiberBase::Resume: _state = Running (a plain sleep is over: ghost) *)
+Definition resume_next (s : st) : option (st * list obs) :=
+  let l := runq s in
+  if is_nil l then Some (crash 8 s)                    (* GetNext on an empty queue: null dereference *)
+  else
+    let '(og, i, s3, o) := poll l s in
+    match og with
+    | None => Some (set_crashed s3 true, o ++ [OCrash 1])
+    | Some f =>
+        let t := (now s3 + tick cf)%N in
+        let s4 := set_now (set_cur (set_runq s3 (remove_nth i l)) (Some f)) t in
+        let s5 := updf f (fun r => with_pend (with_fs r FRunning)
+                                     (match pend r with PSleep _ => PNone | p => p end)) s4 in
+        Some (s5, o ++ [OResume f t])
+    end.
+
 Definition sched_step (s : st) : option (st * list obs) :=
-  match runq s, sleepm s with
-  | [], [] => None                                   (* the loop ends: control returns to whoever started it *)
-  | _, _ =>
-      (* AdvanceTime: if (_sleep_list.begin()->first >= _time) _time = that key *)
-      let s1 := match runq s, sleepm s with
-                | [], (k, _) :: _ => if (now s <=? k)%N then set_now s k else s
-                | _, _ => s
-                end in
-      let (w, m') := wake (now s1) (sleepm s1) in
-      let s2 := set_sleepm (set_runq s1 (runq s1 ++ w)) m' in
-      match runq s2 with
-      | [] => Some (crash 8 s2)                      (* GetNext on an empty queue: null dereference *)
-      | l =>
-          let '(v, s3, o) := draw (2 * pick cf) s2 in
-          let i := poll_index (length l) v in
-          match nth_error l i with
-          | None => Some (set_crashed s3 true, OPick (length l) :: o ++ [OCrash 1])
-          | Some f =>
-              let t := (now s3 + tick cf)%N in
-              let s4 := set_now (set_cur (set_runq s3 (remove_nth i l)) (Some f)) t in
-              (* FiberBase::Resume: _state = Running (a plain sleep is over: ghost) *)
-              let s5 := updf f (fun r => with_pend (with_fs r FRunning)
-                                           (match pend r with PSleep _ => PNone | p => p end)) s4 in
-              Some (s5, OPick (length l) :: o ++ [OResume f t])
-          end
-      end
-  end.
+  if is_nil (runq s) && is_nil (sleepm s) then None    (* the loop ends: control returns to whoever started it *)
+  else resume_next (wakeup (advance s)).
 
 Definition step (s : st) : option (st * list obs) :=
   if crashed s then None
